@@ -21,6 +21,15 @@ Histories (inside the quantifier, reported through `fail`): each of the three op
         the arrays the caller holds, so a later call that corrupts them is reported through that clause).
 Absolute scale (round 4, seeded C18-7): stream `absolute-scale` - the same meshes scaled exactly by 2^-20 .. 2^10 for all three
         operations, tolerances relative to the scaled size, sign of the fresh volume exact.
+Derived objects (round 5, class S, seeded C18-10): stream `derived` - the object an operation is applied to is not built by the
+        constructor but OBTAINED from another object by a chain of public calls (resolve_degeneracy of a mesh with collapsed
+        hexahedra, cut_with_element_ids / extract_with_element_indices with the request in shuffled order or a subset,
+        cut_with_element_type, two-step chains).  Such objects carry whatever tables their producer built (dict_element_id2index
+        from before the element blocks were replaced ...).  The expectation is the derived object's CURRENT public state (nodes,
+        per-type blocks; merged view checked against the blocks), the oracles are the same.  `calculate_element_volumes()` ON THE
+        OBJECT RETURNED by resolve_degeneracy() (observe_at of the property) is compared per id with the source's volumes in every
+        resolve_degeneracy case.  Deliberate structure (class T): hex-only meshes with >= 3 hexahedra, element ids NOT stored
+        ascending and a non-empty PROPER subset collapsed (the result is a hex + prism mix re-sorted by id).
 """
 import itertools
 from fractions import Fraction as F
@@ -32,10 +41,11 @@ from . import meshgen as G
 from . import d_util as U
 
 PROP = 'C18'
-LEAN_MODULES = ['Femio.Props.C18', 'Femio.Props.C18Pyr']
+LEAN_MODULES = ['Femio.Props.C18', 'Femio.Props.C18Pyr', 'Femio.Props.C18Derived']
 THEOREMS = ['C18_pos_correct', 'C18_pyr_table', 'C18_poly_closed', 'C18_poly_own_nodes', 'C18_poly_outward_volume',
             'C18_poly_kernels', 'C18_degeneracy', 'C18_degeneracy_untouched', 'C18_positive', 'C18_permute_table', 'C18_pyr_counterexample',
-            'C18_positive_any_history', 'C18_positive_history_partial', 'C18_stored_metric_counterexample']
+            'C18_positive_any_history', 'C18_positive_history_partial', 'C18_stored_metric_counterexample',
+            'C18_table_current', 'C18_stale_table_counterexample']
 PARTIAL = [
     'C18_poly_outward_volume: volumes are the centroid-fan kernels (exact for planar faces; for warped quadrilaterals '
     'the polyhedron "linear" kernel and the hex / prism / pyr "linear" kernels triangulate differently and are not '
@@ -47,6 +57,9 @@ PARTIAL = [
     'generated histories (surface, normals, incidence ...) are oracle-only',
     'C18_positive_history_partial is the statement for the unrepaired configuration (before e608c63) and is kept '
     'for reference with its counterexample C18_stored_metric_counterexample',
+    'C18_table_current / C18_stale_table_counterexample model the id -> row table (dict_element_id2index) abstractly (value placed '
+    'in row tbl[id]); that femio\'s result objects carry a CURRENT table is not proved but observed by the `derived` stream and the '
+    'per-id volumes of the object returned by resolve_degeneracy (open finding degeneracy:result-object:volume:stale-id2index)',
 ]
 RULE = ('(a) to_polyhedron: seeded geometric meshes (tet / hex / prism / pyr / mixed with interleaved element ids; tet '
         'meshes also with a random inverted subset) with node ids in ascending, descending and shuffled storage order, '
@@ -66,8 +79,17 @@ RULE = ('(a) to_polyhedron: seeded geometric meshes (tet / hex / prism / pyr / m
         'three operations with and without histories - to_polyhedron (all kinds), resolve_degeneracy (random collapsed subsets), '
         'make_elements_positive (every subset of a 6-tet mesh with the scales rotating over the subsets - thorough: every subset at '
         'every scale -, random subsets, positive hex / prism / mixed meshes); volume tolerances relative to max|coordinate|^3 of the '
-        'SCALED mesh (no floor), sign of the fresh volume exact from the rational coordinates. non-trivial = storage order '
-        'differs from ascending ids (a), at least one degenerate hex (b), at least one inverted tet (c)')
+        'SCALED mesh (no floor), sign of the fresh volume exact from the rational coordinates. Stream `derived` (round 5): the object '
+        'the operation is applied to is OBTAINED from a fresh source by public calls - resolve_degeneracy of a mesh with collapsed '
+        'hexahedra (deliberate structure: hex-only, >= 3 hexahedra, element ids not stored ascending, a non-empty proper subset '
+        'collapsed; or the hex block of a mixed mesh), cut_with_element_ids / extract_with_element_indices with the request shuffled '
+        '(all elements or a subset), cut_with_element_type, the chains cut>resolve, resolve>cut - x to_polyhedron (9 rotating styles x '
+        'kinds, a third after a history), resolve_degeneracy (on cut / extracted objects that still hold the collapsed hexahedra, and '
+        'a second time on its own result), make_elements_positive (tet meshes with a random inverted subset; hex+prism results: '
+        'no-op), every fourth case at an absolute scale; expectation = the derived object\'s current public state (per-type blocks, '
+        'merged view checked against them). Every resolve_degeneracy case also asks calculate_element_volumes() of the RETURNED '
+        'object and compares per id with the source. non-trivial = storage order differs from ascending ids (a; derived: node or '
+        'element ids), at least one degenerate hex (b), at least one inverted tet (c)')
 ASSUMPTIONS = [
     'volumes are evaluated on fresh objects built from copies of the result\'s arrays (what the live object has stored '
     'in elemental_data - which ignores the options of later queries - is property C19\'s business: DESIGN section 5 F11)',
@@ -77,6 +99,10 @@ ASSUMPTIONS = [
     'absolute scale: every clause of C18 is homogeneous under uniform scaling, so it is asserted unchanged on meshes scaled by '
     '2^-20 .. 2^10; in that stream tolerances are relative to max|coordinate|^3 without the floor of 1 the other streams keep '
     '(d_util.scale), and "non-negative" is decided exactly (a flat element has volume exactly 0 - none is generated)',
+    'derived objects: the deriving calls (cut_with_element_ids, extract_with_element_indices, cut_with_element_type) are not under '
+    'test here (C09): the description of the derived object is read from its public state (nodes, per-type blocks); a derivation '
+    'that raises or yields an object whose merged view disagrees with its blocks is counted (derived:*) and skipped, never reported; '
+    'what happens to the PARENT of a derived object is not asserted (C19)',
     'a prior query that raises (ValueError of raise_negative_*=True on an inverted mesh, NotImplementedError of the '
     'pyramid metric, anything on a degenerate hexahedron) is part of the history, not a C18 failure: the history goes on',
 ]
@@ -327,6 +353,155 @@ def source_unchanged(fd, m):
         return False
 
 
+
+# ------------------------------------------------------------------ derived objects (round 5, class S; seeded C18-10)
+#
+# a derivation = (source mesh, steps); a step is JSON: ['resolve_degeneracy'] | ['cut_with_element_ids', [ids in request order]]
+# | ['extract_with_element_indices', [positions]] | ['cut_with_element_type', type]
+
+def apply_steps(fd, steps):
+    for s_ in steps:
+        if s_[0] == 'resolve_degeneracy':
+            fd = G.quiet(fd.resolve_degeneracy)
+        elif s_[0] == 'cut_with_element_ids':
+            fd = G.quiet(fd.cut_with_element_ids, np.array(s_[1]))
+        elif s_[0] == 'extract_with_element_indices':
+            fd = G.quiet(fd.extract_with_element_indices, np.array(s_[1]))
+        elif s_[0] == 'cut_with_element_type':
+            fd = G.quiet(fd.cut_with_element_type, s_[1])
+        else:
+            raise ValueError('unknown derivation step ' + repr(s_))
+    return fd
+
+
+def obj_for(m, derive):
+    """the object under test: freshly constructed from the description m, or derived from a fresh source by public calls"""
+    if derive is None:
+        return U.fresh(m)
+    return apply_steps(U.fresh(derive[0]), derive[1])
+
+
+def views_consistent(fd):
+    """the merged view (elements.ids / types / data) and the per-type blocks describe the same elements"""
+    merged = sorted((int(e), str(t), [int(x) for x in c]) for e, t, c in zip(fd.elements.ids, fd.elements.types, fd.elements.data))
+    return merged == sorted((e, t, c) for t, b in blocks_of(fd).items() for e, c in b)
+
+
+def order_class(ids):
+    return 'asc' if ids == sorted(ids) else 'desc' if ids == sorted(ids, reverse=True) else 'shuf'
+
+
+def step_label(steps):
+    return '>'.join(s_[0] for s_ in steps)
+
+
+def describe_object(fd, m_src, steps):
+    """the CURRENT public state of a (derived) object as a mesh description: node ids / exact float coordinates in storage
+    order, per-type blocks in storage order"""
+    ids = [int(i) for i in fd.nodes.ids]
+    m = {'nodes': [(i, tuple(F(float(v)) for v in row)) for i, row in zip(ids, np.asarray(fd.nodes.data))],
+         'blocks': {t: [(e, list(c)) for e, c in b] for t, b in blocks_of(fd).items()},
+         'kind': m_src['kind'] + '>' + step_label(steps), 'order': order_class(ids), 'id_style': m_src.get('id_style')}
+    if 'abs_exp' in m_src:
+        m['abs_exp'] = m_src['abs_exp']
+    return m
+
+
+def materialise(ctx, derive, op):
+    """description of the derived object (None when the derivation itself fails or yields an object whose views disagree:
+    that is the business of the properties about the deriving call - counted, never reported here)"""
+    try:
+        fd = obj_for(None, derive)
+        ok = views_consistent(fd)
+    except Exception as e:  # noqa
+        ctx.count(f'derived:{op}:derivation-raised:{type(e).__name__}')
+        return None
+    if not ok:
+        ctx.count(f'derived:{op}:views-of-derived-object-disagree')
+        return None
+    return describe_object(fd, derive[0], derive[1])
+
+
+def derived_case(case, key, m, derive):
+    if derive is None:
+        return case, key
+    case['derived_from'] = {'mesh': G.to_json(derive[0]), 'steps': derive[1]}
+    return case, key + ('derived', repr(derive[1]), tuple(derive[0]['nodes']),
+                        tuple((t, tuple((e, tuple(c)) for e, c in b)) for t, b in derive[0]['blocks'].items()))
+
+
+def is_ascending(b):
+    return [e for e, _ in b] == sorted(e for e, _ in b)
+
+
+def gen_partial_degenerate(ctx, kind='hex', exp=None):
+    """deliberate structure: >= 3 hexahedra (hex-only, or the hex block of a mixed mesh: >= 1), hex ids NOT stored ascending,
+    a non-empty PROPER subset of the hexahedra collapsed (hex-only) - resolve_degeneracy turns it into a hex + prism mix"""
+    rnd = ctx.rng
+    need = 3 if kind == 'hex' else 1
+    while True:
+        m = G.gen_geometric(rnd, kind=kind, max_cells=2, voids=False)
+        if len(m['blocks'].get('hex', [])) >= need:
+            break
+    hx = m['blocks']['hex']
+    for _ in range(20):
+        if len(hx) < 2 or not is_ascending(hx):
+            break
+        rnd.shuffle(hx)
+    if exp is not None:
+        m = scaled(m, exp)
+    if kind == 'hex':
+        only = set(rnd.sample(range(len(hx)), rnd.randint(1, len(hx) - 1)))
+    else:
+        only = {k for k in range(len(hx)) if rnd.random() < .6} or {0}
+    return collapse(ctx, m, force=None, only=only)
+
+
+def shuffled_request(rnd, items, subset):
+    items = list(items)
+    rnd.shuffle(items)
+    if subset and len(items) > 1:
+        items = items[:rnd.randint(max(1, len(items) // 2), len(items) - 1)]
+    return items
+
+
+def all_eids(m):
+    return [e for b in m['blocks'].values() for e, _ in b]
+
+
+def derived_source(ctx, style, kind, exp=None, degenerate=False):
+    """(source mesh, steps, patterns of the source) for one of the derivation styles.  degenerate=False: the derived object has
+    no degenerate hexahedron left (to_polyhedron / make_elements_positive); True: the derivation keeps the collapsed hexahedra
+    (resolve_degeneracy is the operation under test)"""
+    rnd = ctx.rng
+    if style in ('resolve', 'cut>resolve', 'resolve>cut') or degenerate:
+        m, pats = gen_partial_degenerate(ctx, 'hex' if kind not in ('hex', 'mixed') else kind, exp)
+    else:
+        m, pats = G.gen_geometric(rnd, kind=kind, max_cells=2), {}
+        if exp is not None:
+            m = scaled(m, exp)
+    eids = all_eids(m)
+    if style == 'resolve':
+        steps = [['resolve_degeneracy']]
+    elif style == 'cut>resolve':
+        steps = [['cut_with_element_ids', shuffled_request(rnd, eids, True)], ['resolve_degeneracy']]
+    elif style == 'resolve>cut':
+        steps = [['resolve_degeneracy'], ['cut_with_element_ids', shuffled_request(rnd, eids, rnd.random() < .5)]]
+    elif style == 'cut-all':
+        steps = [['cut_with_element_ids', shuffled_request(rnd, eids, False)]]
+    elif style == 'cut-subset':
+        steps = [['cut_with_element_ids', shuffled_request(rnd, eids, True)]]
+    elif style == 'extract':
+        steps = [['extract_with_element_indices', shuffled_request(rnd, range(len(eids)), rnd.random() < .5)]]
+    elif style == 'cut-type':
+        steps = [['cut_with_element_type', rnd.choice(sorted(m['blocks']))]]
+    elif style == 'resolve-noop':
+        steps = [['cut_with_element_ids', shuffled_request(rnd, eids, False)], ['resolve_degeneracy']]
+    else:
+        raise ValueError(style)
+    return m, steps, pats
+
+
 # ------------------------------------------------------------------ (a) to_polyhedron
 
 def decode_faces(dat):
@@ -369,9 +544,9 @@ def stores_volume(hist):
     return any(c[0] in VOLUME_LIKE or (c[0] == 'query' and c[1] in ('e2n_mean', 'block_volumes', 'block_metrics')) for c in hist)
 
 
-def poly_real(m, hist=()):
+def poly_real(m, hist=(), derive=None):
     hist = list(hist)
-    fd = U.fresh(m)
+    fd = obj_for(m, derive)
     H, poly = run_history(fd, hist, fd.to_polyhedron, 'to_polyhedron')
     obs = {'ids': [int(i) for i in poly.elements.ids], 'types': list(poly.elements.keys()),
            'conn': [[int(x) for x in r] for r in poly.elements.data],
@@ -483,19 +658,32 @@ def poly_correspond(ctx, m, obs, case, tally):
             break
 
 
-def poly_case(ctx, m, tally, hist=()):
+def poly_case(ctx, m, tally, hist=(), derive=None):
+    """derive = (source mesh, steps): the operation runs on the object derived from the source by the steps and m is the
+    description of that object's public state (recomputed here)"""
     hist = list(hist)
+    if derive is not None:
+        m = materialise(ctx, derive, 'poly')
+        if m is None:
+            return
     case = mesh_case(m, op='to_polyhedron')
     ids = [i for i, _ in m['nodes']]
     key = ('poly', tuple(m['nodes']), tuple((t, tuple((e, tuple(c)) for e, c in b)) for t, b in m['blocks'].items()))
     if hist:
         case['history'] = hist
         key = key + (repr(hist),)
+    case, key = derived_case(case, key, m, derive)
     U.stage('to_polyhedron() / calculate_element_volumes()')
-    obs = U.guarded(ctx, case, key, poly_real, m, hist)
+    obs = U.guarded(ctx, case, key, poly_real, m, hist, derive)
     if obs is None:
         return
-    ctx.case(key, sample={**G.describe(m), 'op': 'to_polyhedron', **({'history': hist} if hist else {})}, nontrivial=ids != sorted(ids))
+    eids = [e for e, _ in sum(m['blocks'].values(), [])]
+    ctx.case(key, sample={**G.describe(m), 'op': 'to_polyhedron', **({'history': hist} if hist else {}),
+                          **({'derived_by': step_label(derive[1])} if derive else {})},
+             nontrivial=ids != sorted(ids) or (derive is not None and eids != sorted(eids)))
+    if derive is not None:
+        ctx.count('derived:poly:' + step_label(derive[1]))
+        ctx.count('derived:poly:types:' + '+'.join(m['blocks']))
     ctx.count('poly:kind:' + m['kind'])
     count_scale(ctx, 'poly', m)
     ctx.count('poly:order:' + m['order'])
@@ -554,13 +742,14 @@ def shrink_poly(m, eid, signature):
 
 # ------------------------------------------------------------------ (b) resolve_degeneracy
 
-def collapse(ctx, m, p_deg=.5, force=None, broken=False):
-    """collapse edge pairs of some hexahedra (geometric collapse of the cell, independent of femio's tables)"""
+def collapse(ctx, m, p_deg=.5, force=None, broken=False, only=None):
+    """collapse edge pairs of some hexahedra (geometric collapse of the cell, independent of femio's tables); only = the
+    storage positions of the hexahedra to collapse (each with a random pattern)"""
     m2 = dict(m)
     blocks = {t: [(e, list(c)) for e, c in b] for t, b in m['blocks'].items()}
     pats = {}
     for k, (e, c) in enumerate(blocks.get('hex', [])):
-        if force is not None or ctx.rng.random() < p_deg:
+        if (k in only) if only is not None else (force is not None or ctx.rng.random() < p_deg):
             name = force or ctx.rng.choice(sorted(PATTERNS))
             a, b = PATTERNS[name]
             c[b] = c[a]
@@ -576,9 +765,10 @@ def blocks_of(fd):
     return {t: [(int(i), [int(x) for x in r]) for i, r in zip(a.ids, a.data)] for t, a in fd.elements.items()}
 
 
-def degen_real(m, hist=()):
+def degen_real(m, hist=(), derive=None):
     hist = list(hist)
-    fd = U.fresh(m)
+    fd = obj_for(m, derive)
+    src_ids = U.flat_ids(fd)
     try:
         H, r = run_history(fd, hist, fd.resolve_degeneracy, 'resolve_degeneracy')
     except ValueError as e:
@@ -588,6 +778,12 @@ def degen_real(m, hist=()):
     m_after = {'nodes': m['nodes'], 'blocks': {t: [(e, c) for e, c in b] for t, b in obs['blocks'].items()}, 'kind': 'after', 'order': m['order']}
     obs['vol_after'] = U.real_volumes(m_after, 'centroid')
     obs['vol_before'] = U.real_volumes(m, 'centroid')
+    # observe_at of the property: calculate_element_volumes ON THE RESULT OBJECT (it got elemental_data={} - nothing stored by
+    # the history is handed over), bound to the ids the result object reports
+    v = G.quiet(r.calculate_element_volumes, raise_negative_volume=False)
+    obs['res_ids'], obs['src_ids'] = U.flat_ids(r), src_ids
+    obs['res_merged'] = sorted((int(e), str(t), [int(x) for x in c]) for e, t, c in zip(r.elements.ids, r.elements.types, r.elements.data))
+    obs['vol_result_object'] = [float(x) for x in v[:, 0]]
     return obs
 
 
@@ -636,6 +832,31 @@ def degen_oracle(ctx, m, pats, obs, case):
             ctx.fail('degeneracy:volume', 'calculate_element_volumes() differs before / after resolve_degeneracy()', case,
                      {'element': e, 'before': obs['vol_before'][e], 'after': obs['vol_after'][e]})
             return
+    # (last, so that nothing else is hidden behind it) the volumes the RESULT OBJECT itself reports, per id
+    if 'vol_result_object' not in obs:
+        return
+    tol = 2 * U.TOL_CENTROID * sc
+    R, S, V = obs['res_ids'], obs['src_ids'], obs['vol_result_object']
+    if sorted(R) != sorted(before) or len(V) != len(R):
+        ctx.fail('degeneracy:result-object:ids', 'elements.ids of the object returned by resolve_degeneracy() are not the source\'s ids',
+                 case, {'result_ids': R[:8], 'n_volumes': len(V)})
+        return
+    if obs['res_merged'] != sorted((e, t, c) for e, (t, c) in after.items()):
+        k = next((i for i, (x, y) in enumerate(zip(obs['res_merged'], sorted((e, t, c) for e, (t, c) in after.items()))) if x != y), 0)
+        ctx.fail('degeneracy:result-object:views-disagree', 'elements.ids / types / data (the merged view) of the object returned by '
+                 'resolve_degeneracy() do not describe the same elements as its per-type blocks', case,
+                 {'merged_view': obs['res_merged'][k:k + 2], 'blocks': sorted((e, t, c) for e, (t, c) in after.items())[k:k + 2]})
+        return
+    bad = [k for k, e in enumerate(R) if not U.close(V[k], obs['vol_before'][e], tol)]
+    if bad:
+        # the mis-assignment an id -> row table built for the SOURCE's storage order produces: the value at row p belongs to S[p]
+        stale = len(S) == len(R) and all(U.close(V[k], obs['vol_before'][S[k]], tol) for k in range(len(R)))
+        k = bad[0]
+        ctx.fail('degeneracy:result-object:volume' + (':stale-id2index' if stale else ''),
+                 'calculate_element_volumes() on the object returned by resolve_degeneracy() gives an element another volume than the '
+                 'source had' + (' (exactly the assignment through an id -> row table of the SOURCE\'s storage order)' if stale else ''),
+                 case, {'element': R[k], 'type': after[R[k]][0], 'volume_on_result_object': V[k], 'volume_in_source': obs['vol_before'][R[k]],
+                        'result_ids': R[:12], 'source_ids_in_storage_order': S[:12], 'n_misassigned': len(bad)})
 
 
 def degen_correspond(ctx, m, obs, case):
@@ -654,17 +875,30 @@ def degen_correspond(ctx, m, obs, case):
         ctx.disagree('resolve_degeneracy element blocks', case, [(k, v[:3]) for k, v in impl], [(k, v[:3]) for k, v in mb])
 
 
-def degen_case(ctx, m, pats, stream='main', hist=()):
+def degen_case(ctx, m, pats, stream='main', hist=(), derive=None):
+    """derive = (source mesh, steps): resolve_degeneracy runs on the derived object; pats = patterns of the SOURCE (restricted
+    here to the hexahedra the derived object still holds as hexahedra)"""
     hist = list(hist)
+    if derive is not None:
+        m = materialise(ctx, derive, 'degen')
+        if m is None:
+            return
+        pats = {e: pats[e] for e, _ in m['blocks'].get('hex', []) if e in pats}
     case = mesh_case(m, op='resolve_degeneracy', patterns={str(k): v for k, v in pats.items()})
     key = ('degen', tuple(m['nodes']), tuple((t, tuple((e, tuple(c)) for e, c in b)) for t, b in m['blocks'].items()))
     if hist:
         case['history'] = hist
         key = key + (repr(hist),)
+    case, key = derived_case(case, key, m, derive)
     U.stage('resolve_degeneracy() / calculate_element_volumes()')
-    obs = U.guarded(ctx, case, key, degen_real, m, hist)
+    obs = U.guarded(ctx, case, key, degen_real, m, hist, derive)
     if obs is None:
         return
+    if derive is not None:
+        ctx.count('derived:degen:' + step_label(derive[1]))
+    hx = m['blocks'].get('hex', [])
+    if 'error' not in obs and list(m['blocks']) == ['hex'] and 0 < len(pats) < len(hx):
+        ctx.count('degen:hex-only:proper-subset-collapsed:ids-' + ('ascending' if is_ascending(hx) else 'not-ascending'))
     ctx.case(key, sample={**G.describe(m), 'op': 'resolve_degeneracy', 'degenerate': len(pats), **({'history': hist} if hist else {})},
              nontrivial=bool(pats))
     for p in pats.values():
@@ -705,11 +939,11 @@ def invert(m, subset, how):
     return m2
 
 
-def positive_real(m, hist=()):
+def positive_real(m, hist=(), derive=None):
     hist = list(hist)
     fd = U.fresh(m)
     before = [float(x) for x in G.quiet(fd.calculate_element_volumes, raise_negative_volume=False)[:, 0]]
-    fd = U.fresh(m)
+    fd = obj_for(m, derive)
     H, _ = run_history(fd, hist, fd.make_elements_positive, 'make_elements_positive')
     obs = {'before': before, 'ids': U.flat_ids(fd), 'conn': [[int(x) for x in r] for r in fd.elements.data],
            'block': [[int(x) for x in r] for r in fd.elements['tet'].data], 'trace': H.trace, 'held': H.held_now(),
@@ -810,18 +1044,29 @@ def history_correspond(ctx, m, obs, case, hist, tally):
     return res[1]
 
 
-def positive_case(ctx, m, subset, label, hist=(), tally=None):
+def positive_case(ctx, m, subset, label, hist=(), tally=None, derive=None):
+    """derive = (source tet mesh, steps): make_elements_positive runs on the derived object; the inverted subset is recomputed
+    exactly from the derived object's description"""
     hist = list(hist)
+    if derive is not None:
+        m = materialise(ctx, derive, 'positive')
+        if m is None or list(m['blocks']) != ['tet']:
+            return
+        X = U.coords_exact(m)
+        subset = {k for k, (e, c) in enumerate(m['blocks']['tet']) if G.tet6([X[i] for i in c]) < 0}
     case = mesh_case(m, op='make_elements_positive', inverted=sorted(subset))
     key = ('pos', tuple(m['nodes']), tuple((e, tuple(c)) for e, c in m['blocks']['tet']))
     if hist:
         # history: the calls of `hist` on the object, then fd.make_elements_positive()
         case['history'] = hist
         key = key + (repr(hist),)
+    case, key = derived_case(case, key, m, derive)
     U.stage('make_elements_positive() / calculate_element_volumes()')
-    obs = U.guarded(ctx, case, key, positive_real, m, hist)
+    obs = U.guarded(ctx, case, key, positive_real, m, hist, derive)
     if obs is None:
         return
+    if derive is not None:
+        ctx.count('derived:positive:' + step_label(derive[1]))
     sample = {**G.describe(m), 'op': 'make_elements_positive', 'inverted': len(subset)}
     if hist:
         sample['history'] = hist
@@ -842,12 +1087,18 @@ def positive_case(ctx, m, subset, label, hist=(), tally=None):
         ctx.failures[-1]['observed']['history_trace'] = obs['trace']
 
 
-def positive_other_case(ctx, m):
+def positive_other_case(ctx, m, derive=None):
     """make_elements_positive() on a positive mesh of other element types (empty subset of inverted elements): nothing
     may change.  femio has no metric for pyramids (NotImplementedError): labelled stream, never a failure."""
+    if derive is not None:
+        m = materialise(ctx, derive, 'positive-other')
+        if m is None:
+            return
+        ctx.count('derived:positive-other:' + step_label(derive[1]))
     case = mesh_case(m, op='make_elements_positive_other')
     key = ('pos-other', tuple(m['nodes']), tuple((t, tuple((e, tuple(c)) for e, c in b)) for t, b in m['blocks'].items()))
-    fd = U.fresh(m)
+    case, key = derived_case(case, key, m, derive)
+    fd = obj_for(m, derive)
     U.stage('make_elements_positive()')
     try:
         G.quiet(fd.make_elements_positive)
@@ -988,6 +1239,39 @@ def run(ctx):
                       'absolute-scale:random-subset' + (':history' if hist else ''), hist=hist)
     for k in range(ctx.n(7, 42)):
         positive_other_case(ctx, scaled(G.gen_geometric(rnd, kind=['hex', 'prism', 'mixed'][k % 3], max_cells=2), E[k % len(E)]))
+    # (e) stream `derived` (round 5, class S): the three operations on objects OBTAINED from other objects by public calls
+    #     (every fourth case at an absolute scale); the styles rotate so that every seed meets every style
+    ST_POLY = ['resolve', 'cut-all', 'resolve', 'cut-subset', 'cut>resolve', 'extract', 'resolve>cut', 'cut-type', 'resolve-noop']
+    for k in range(ctx.n(27, 270) * boost):
+        style = ST_POLY[k % len(ST_POLY)]
+        kind = (['hex', 'hex', 'mixed'] if 'resolve' in style and style != 'resolve-noop' else kinds)[(k // len(ST_POLY)) % (3 if 'resolve' in style and style != 'resolve-noop' else 5)]
+        m, steps, _ = derived_source(ctx, style, kind, exp=E[k % len(E)] if k % 4 == 3 else None)
+        poly_case(ctx, None, {1: [0, 0], 0: [0, 0]}, gen_history(rnd) if k % 3 == 2 else [], derive=(m, steps))
+    ST_DEGEN = ['cut-all', 'resolve', 'cut-subset', 'extract', 'resolve>cut']
+    for k in range(ctx.n(10, 100) * boost):
+        style = ST_DEGEN[k % len(ST_DEGEN)]
+        m, steps, pats = derived_source(ctx, style, ['hex', 'mixed', 'hex'][(k // len(ST_DEGEN)) % 3],
+                                        exp=E[k % len(E)] if k % 4 == 3 else None, degenerate=True)
+        degen_case(ctx, None, pats, stream='derived', hist=gen_history(rnd) if k % 3 == 2 else [], derive=(m, steps))
+    ST_POS = ['cut-all', 'cut-subset', 'extract', 'resolve-noop']
+    for k in range(ctx.n(12, 120) * boost):
+        m = G.gen_geometric(rnd, kind='tet', max_cells=2)
+        n = len(m['blocks']['tet'])
+        m = invert(m, {i for i in range(n) if rnd.random() < rnd.choice([.1, .5, .9])}, SWAPS[-1])
+        if k % 4 == 3:
+            m = scaled(m, E[k % len(E)])
+        eids = all_eids(m)
+        style = ST_POS[k % len(ST_POS)]
+        steps = {'cut-all': [['cut_with_element_ids', shuffled_request(rnd, eids, False)]],
+                 'cut-subset': [['cut_with_element_ids', shuffled_request(rnd, eids, True)]],
+                 'extract': [['extract_with_element_indices', shuffled_request(rnd, range(n), rnd.random() < .5)]],
+                 'resolve-noop': [['resolve_degeneracy']]}[style]
+        hist = gen_history(rnd) if k % 2 else []
+        positive_case(ctx, None, None, 'derived:' + style + (':history' if hist else ''), hist=hist, derive=(m, steps))
+    for k in range(ctx.n(6, 60)):
+        m, steps, _ = derived_source(ctx, ['resolve', 'cut>resolve', 'resolve>cut'][k % 3], ['hex', 'mixed'][(k // 3) % 2],
+                                     exp=E[k % len(E)] if k % 4 == 3 else None)
+        positive_other_case(ctx, None, derive=(m, steps))
     ctx.extra['p_tie'] = {'tolerance_centroid': U.TOL_CENTROID, 'tolerance_linear': U.TOL_LINEAR, 'scale': 'max|coordinate|^3'}
 
 
@@ -999,14 +1283,20 @@ def replay(ctx, obj, record=False):
     n0, d0 = len(ctx.failures), len(ctx.disagreements)
     op = inp.get('op')
     hist = inp.get('history') or legacy_history(inp.get('prior_query'))
+    derive = None
+    if 'derived_from' in inp:
+        m_src = G.from_json(inp['derived_from']['mesh'])
+        if 'abs_exp' in inp:
+            m_src['abs_exp'] = inp['abs_exp']
+        derive = (m_src, inp['derived_from']['steps'])
     if op == 'to_polyhedron':
-        poly_case(ctx, m, {1: [0, 0], 0: [0, 0]}, hist)
+        poly_case(ctx, m, {1: [0, 0], 0: [0, 0]}, hist, derive=derive)
     elif op == 'resolve_degeneracy':
-        degen_case(ctx, m, {int(k): v for k, v in inp.get('patterns', {}).items()}, hist=hist)
+        degen_case(ctx, m, {int(k): v for k, v in inp.get('patterns', {}).items()}, hist=hist, derive=derive)
     elif op == 'make_elements_positive':
-        positive_case(ctx, m, set(inp.get('inverted', [])), 'replay', hist=hist)
+        positive_case(ctx, m, set(inp.get('inverted', [])), 'replay', hist=hist, derive=derive)
     elif op == 'make_elements_positive_other':
-        positive_other_case(ctx, m)
+        positive_other_case(ctx, m, derive=derive)
     else:
         return {'fails': False, 'error': 'unknown op'}
     return {'op': op, 'describe': G.describe(m),
